@@ -143,7 +143,8 @@ def r19_1(ctx, rep, meths):
 def r19_2(ctx, rep):
     r = rep.rule("R19.2", "transport classification in UdpSocket::receive_one / recv")
     fx = ctx.fx
-    ro = [f for f in fx.fns.values() if f.get("impl_self") == "transport::udp::UdpSocket" and f.get("is_async") and "Option<(" in (f.get("output") or "")]
+    ro = [f for f in fx.fns.values() if f.get("impl_self") == "transport::udp::UdpSocket" and f.get("is_async") and "Option<(" in (f.get("output") or "")
+          and "ChitchatMessage" in (f.get("output") or "") and f["id"] not in getattr(fx, "new_helpers", ())]
     if len(ro) != 1:
         raise AnchorLost("receive_one", "UdpSocket method returning Result<Option<(addr, msg)>> not found")
     co = coroutine_of(fx, ro[0]["id"])
